@@ -28,6 +28,7 @@ import os
 import re
 import sys
 import types
+import zlib
 from collections import deque
 
 import xdis
@@ -232,8 +233,11 @@ def disco_loop(
 
 
 def code_uniquify(basename, co_code):
-    # FIXME: better would be a hash of the co_code
-    return "%s_0x%x" % (basename, id(co_code))
+    # A hash of the co_code contents: the name must not depend on where the
+    # bytes object happens to live (or on whether two code objects share it).
+    if not isinstance(co_code, bytes):
+        co_code = co_code.encode("latin-1")
+    return "%s_0x%x" % (basename, zlib.crc32(co_code))
 
 
 def disco_loop_asm_format(opc, version_tuple, co, real_out, fn_name_map, all_fns):
@@ -259,7 +263,8 @@ def disco_loop_asm_format(opc, version_tuple, co, real_out, fn_name_map, all_fns
                 opc, version_tuple, c_compat, real_out, fn_name_map, all_fns
             )
 
-            m = re.match(".* object <(.+)> at", str(c))
+            # a name like "<lambda>" that the call above did not already make unique
+            m = re.match("^<(.+)>$", c_compat.co_name)
             if m:
                 basename = m.group(1)
                 if basename != "module":
